@@ -16,7 +16,9 @@ from .universe import Dimension, DimensionSet, FlodymArray
 ALPHABET = [("A", "a", "dim_a", 2), ("B", "b", "dim_b", 3), ("C", "c", "dim_c", 2), ("D", "d", "dim_d", 1), ("E", "e", "dim_e", 4),
             ("F", "f", "dim_f", 5), ("G", "g", "dim_g", 7), ("A2", "a", "alt_a", 3), ("B2", "b", "alt_b", 2), ("E2", "e", "alt_e", 6),
             # two dimensions that carry the NAME of another one under their own letter (only letters are unique in a set)
-            ("H", "h", "dim_a", 3), ("C2", "c", "dim_g", 2)]
+            ("H", "h", "dim_a", 3), ("C2", "c", "dim_g", 2),
+            # letters that differ from another one only in CASE are different letters
+            ("AU", "A", "dim_A", 2), ("EU", "E", "DIM_E", 3)]
 REGS = ["r1", "r2", "r3", "r4"]
 
 
